@@ -25,8 +25,12 @@ EXPLANATION = (
     "metadata parser and writer equal the specification's (an element's logical type is the one the file "
     "states; shared with C13.5). The level expressions of (2) are obtained by executing "
     "carquet_schema_add_column and add_column_internal abstractly once per repetition value and reading "
-    "the level slot of the new leaf. Decides these clauses, not leaf order and counts for arbitrary trees "
-    "(they follow from (1) only for well-formed child counts).")
+    "the level slot of the new leaf. (9) build_schema, executed abstractly on every schema tree with 1..5 "
+    "elements below the root (64 shapes, repetitions in rotation, names and types unknown, arena hooked), "
+    "returns exactly the tree's leaves in order with the specification's definition / repetition levels, "
+    "requests the leaf arrays with that many entries and writes nothing past them - whatever walk is behind "
+    "it (recursive, iterative, renamed). Decides these clauses; leaf order and counts for trees beyond the "
+    "bound follow from (1) and (9) only by the per-node argument, not by execution.")
 
 FR = "src/reader/file_reader.c"
 SC = "src/metadata/schema.c"
@@ -61,6 +65,8 @@ def run(ctx):
     ctx.clause("C17.4 growth keeps the parallel arrays in step and precedes every append")
     ctx.clause("C17.5 accessors and name lookup")
     ctx.clause("C17.6 the reader's leaf arrays are filled only by the recursive walk, which every successful build_schema runs")
+    ctx.clause("C17.9 build_schema maps every schema tree of up to 5 elements to its leaves, levels and array sizes (bounded-exhaustive over tree shapes)")
+    _bounded_trees(ctx)         # first: it only needs build_schema, whatever the walk behind it is called
     _only_the_walk(ctx)
     ctx.clause("C17.7 byte offsets into the schema's typed arrays are element-scaled (no element count used as byte count)")
     ctx.clause("C17.8 an element's logical type is the one the file states: the LogicalType union tables equal the specification's")
@@ -384,6 +390,136 @@ def leaf_predicate_rule(ctx, rule="R5.siblings"):
     ctx.ob(rule, "leaf-predicate-extent|%s:count_leaves/traverse" % FR, P.where(c2[0]),
            "the arrays allocated for count_leaves() leaves are filled by a walk that decides 'leaf' by the same predicate",
            t1 == t2, "%s / %s" % (show(t1), show(t2)))
+
+
+def _forests(n):
+    """all ordered forests with n nodes as preorder child-count lists"""
+    if n == 0:
+        return [[]]
+    out = []
+    # first tree has k nodes (1..n): root with a forest of k-1 nodes, followed by a forest of n-k nodes
+    for k in range(1, n + 1):
+        for sub in _forests(k - 1):
+            for rest in _forests(n - k):
+                out.append([_top(sub)] + sub + rest)
+    return out
+
+
+def _top(forest):
+    """number of top-level trees of a preorder child-count list"""
+    i = t = 0
+    while i < len(forest):
+        t += 1
+        i = _skip(forest, i)
+    return t
+
+
+def _skip(forest, i):
+    c = forest[i]
+    i += 1
+    for _ in range(c):
+        i = _skip(forest, i)
+    return i
+
+
+def _bounded_trees(ctx):
+    """build_schema executed abstractly on every schema tree with 1..5 elements below the root (64 shapes;
+    repetitions assigned in rotation so that all three occur at every depth; names and types unknown; the arena
+    hooked): the schema it returns lists exactly the leaves of the tree, in order, with the levels the
+    specification gives them, the arrays were requested with that many entries, and no leaf array is written
+    beyond what was requested. Bounded: larger trees are not executed; the per-node rules above (C17.1) carry the
+    argument beyond the bound."""
+    from ..rules import sem
+    from ..rules.skeleton import Ptr, U
+    P = ctx.P
+    bs = P.fn("build_schema", FR)
+    key = "bounded-trees|%s:build_schema" % FR
+    what = ("for every schema tree with up to 5 elements below the root build_schema returns exactly the tree's leaves in order with their "
+            "definition / repetition levels, sizes the leaf arrays for them and never writes past them (abstract execution, 64 shapes)")
+    eo = sem.field_offsets(P, "parquet_schema_element")
+    esz = P.record("parquet_schema_element")["size"]
+    mo = sem.field_offsets(P, "parquet_file_metadata")
+    so = sem.field_offsets(P, "carquet_schema")
+    C = {REQ: (0, 0), OPT: (1, 0), REP: (1, 1)}
+    ROT = (OPT, REP, REQ)
+    bad = None
+    n = 0
+    try:
+        for size in range(1, 6):
+            for forest in _forests(size):
+                n += 1
+                reps = [ROT[(i + size) % 3] for i in range(size)]
+                # reference walk
+                leaves = []
+
+                def walk(i, d, r):
+                    c = forest[i]
+                    d2, r2 = d + C[reps[i]][0], r + C[reps[i]][1]
+                    j = i + 1
+                    if c == 0:
+                        leaves.append((d2, r2, i + 1))
+                    for _ in range(c):
+                        j = walk(j, d2, r2)
+                    return j
+                i = 0
+                while i < size:
+                    i = walk(i, 0, 0)
+                heap0 = {("md", mo["schema"]): Ptr("el", 0, esz), ("md", mo["num_schema_elements"]): size + 1}
+                for k_, off in eo.items():
+                    heap0[("el", off)] = 0
+                heap0[("el", eo["num_children"])] = _top(forest)
+                for i in range(size):
+                    base = (i + 1) * esz
+                    for k_, off in eo.items():
+                        heap0[("el", base + off)] = 0
+                    heap0[("el", base + eo["has_repetition"])] = 1
+                    heap0[("el", base + eo["repetition_type"])] = reps[i]
+                    heap0[("el", base + eo["num_children"])] = forest[i]
+                    if "has_num_children" in eo:
+                        heap0[("el", base + eo["has_num_children"])] = 1
+                    heap0[("el", base + eo["name"])] = Ptr("name%d" % i, 0, 1)
+                na = [0]
+                asked = {}
+
+                def alloc(ev, a, it):
+                    total = a[1] * a[2] if isinstance(a[1], int) and isinstance(a[2], int) else U
+                    if total == 0:
+                        return 0
+                    na[0] += 1
+                    asked["a%d" % na[0]] = (a[1], a[2])
+                    b = "a%d" % na[0]
+                    if isinstance(total, int) and total <= 4096:
+                        for o in range(0, total, 2):
+                            it.heap.setdefault((b, o), 0)
+                    return Ptr(b, 0, 1)
+                it_ref = []
+                outs = sem.run(P, bs, [Ptr("arena", 0, 1), Ptr("md", 0, 1), 0], heap0=heap0,
+                               hooks={"carquet_arena_calloc": alloc, "carquet_error_set": lambda ev, a, it: None}, single=True, max_forks=16,
+                               budget=300000, inline_depth=12, on_start=lambda: (na.__setitem__(0, 0), asked.clear()))
+                ret, ev, heap = outs
+                sc = "tree with child counts %s (root: %d)" % (forest, _top(forest))
+                if not isinstance(ret, Ptr):
+                    bad = bad or "%s: build_schema returns %s" % (sc, ret)
+                    continue
+                nl = heap.get((ret.base, so["num_leaves"]))
+                li, md, mr = (heap.get((ret.base, so[m])) for m in ("leaf_indices", "max_def_levels", "max_rep_levels"))
+                if nl != len(leaves) or not all(isinstance(x, Ptr) for x in (li, md, mr)):
+                    bad = bad or "%s: %s leaves reported, the tree has %d" % (sc, nl, len(leaves))
+                    continue
+                got = [(heap.get((md.base, 2 * k)), heap.get((mr.base, 2 * k)), heap.get((li.base, 4 * k))) for k in range(nl)]
+                if got != leaves:
+                    bad = bad or "%s: leaves (def, rep, element) %s, expected %s" % (sc, got, leaves)
+                for arr, esz_ in ((li, 4), (md, 2), (mr, 2)):
+                    cnt = asked.get(arr.base, (0, 0))[0]
+                    beyond = [o for (b, o) in heap if b == arr.base and isinstance(o, int) and o >= cnt * esz_]
+                    if (cnt != len(leaves) or beyond) and bad is None:
+                        bad = "%s: a leaf array was requested with %s entries and written up to byte %s; the tree has %d leaves" % (
+                            sc, cnt, max(beyond) if beyond else "-", len(leaves))
+    except (sem.Inconclusive, KeyError) as ex:
+        ctx.inconclusive("R5.spec", key, P.where(bs.body), what, "%s: %s" % (type(ex).__name__, ex))
+        return
+    ctx.count("bounded_tree_shapes", n)
+    ctx.ob("R5.spec", key, P.where(bs.body), what, bad is None, bad or "")
 
 
 def _walk_table(ctx, tr, enumv):
